@@ -72,43 +72,46 @@ pub fn dsets_of_size(dim: usize, n: usize) -> Vec<DS> {
     for k in 0..=(n / 2) {
         let s0 = standard_involution(n, k);
         let c0: Vec<&Vec<usize>> = invs.iter().filter(|x| commute(x, &s0)).collect();
-        let parts: Vec<BTreeMap<Vec<usize>, DS>> = match dim {
+        // per-thread maps, merged pairwise (memory stays proportional to the number of classes)
+        let merge = |mut a: BTreeMap<Vec<usize>, DS>, b: BTreeMap<Vec<usize>, DS>| {
+            for (k, v) in b {
+                a.entry(k).or_insert(v);
+            }
+            a
+        };
+        let part: BTreeMap<Vec<usize>, DS> = match dim {
             1 => {
                 let mut local = BTreeMap::new();
                 for s1 in &invs {
                     consider([&s0, s1, s1, s1], &mut local);
                 }
-                vec![local]
+                local
             }
             2 => c0
                 .par_iter()
-                .map(|s2| {
-                    let mut local = BTreeMap::new();
+                .fold(BTreeMap::new, |mut local, s2| {
                     for s1 in &invs {
                         consider([&s0, s1, s2, s2], &mut local);
                     }
                     local
                 })
-                .collect(),
+                .reduce(BTreeMap::new, merge),
             _ => {
                 // s2, s3 commute with s0; s1 commutes with s3
                 let pairs: Vec<(&Vec<usize>, &Vec<usize>)> = c0.iter().flat_map(|s3| c0.iter().map(move |s2| (*s3, *s2))).collect();
                 pairs
                     .par_iter()
-                    .map(|(s3, s2)| {
-                        let mut local = BTreeMap::new();
+                    .fold(BTreeMap::new, |mut local, (s3, s2)| {
                         for s1 in invs.iter().filter(|x| commute(x, s3)) {
                             consider([&s0, s1, s2, s3], &mut local);
                         }
                         local
                     })
-                    .collect()
+                    .reduce(BTreeMap::new, merge)
             }
         };
-        for part in parts {
-            for (code, ds) in part {
-                found.entry(code).or_insert(ds);
-            }
+        for (code, ds) in part {
+            found.entry(code).or_insert(ds);
         }
     }
     found.into_values().map(|ds| crate::oracle::iso::canonical_ds(&ds)).collect()
